@@ -14,7 +14,7 @@ var expectedReach = map[string][]string{
 	"C17": {"pool.reuse", "pool.miss-with-items", "pool.drop", "garblings-compared-with-run-alone"},
 	"C08": {"map.range", "map.range.permuted", "job.separate-process", "job.reused-compiler-with-history", "job.same-program-twice-on-one-instance"},
 	"C14": {"roundtrip.mpclc", "roundtrip.bristol", "file>4KiB", "rejected-with-error", "accepted-well-formed", "discarded: declared size above one million"},
-	"C04": {"whole-circuit.transcripts-scanned", "streaming.transcripts-scanned", "sha2pc.transcripts-scanned"},
+	"C04": {"whole-circuit.transcripts-scanned", "streaming.transcripts-scanned", "sha2pc.transcripts-scanned", "tamper.ot-request-rewritten"},
 	"C18": {"curve.P-256", "curve.P-224", "curve.P-384", "mixing.rejected", "mixing.other-curve", "mixing.sizes-compared", "mutation.rejected", "mutation.still-decodes", "round3.other-length-refused"},
 	"C10": {"parties=2", "parties=3", "parties=4", "parties=5", "circuit.compiled-for-GMW", "circuit.and-levels>3", "triples.checked-words", "cond.wakeup"},
 	"C05": {"program.generated", "program.corpus", "wires>65535"},
